@@ -1489,14 +1489,18 @@ func postsPanic(op string) bool {
 }
 
 // bubble runs `body` inside one synctest bubble with the trace plumbing; it never returns (syscall.Exit).
-func bubble(t *testing.T, body func(h *hx.T, run func(op string) string)) {
-	// silence the panic reports of doTask / Post (stack traces through logrus) and "RunServeice loop end"
+// quiet silences the panic reports of doTask / Post (stack traces through logrus) and "RunServeice loop end"
+func quiet() {
 	log.SetOutput(io.Discard)
 	for _, n := range []string{"exception", "default"} {
 		if l := proxy.GetLogs().GetLog(n); l != nil {
 			l.SetLogLevel(logrus.PanicLevel)
 		}
 	}
+}
+
+func bubble(t *testing.T, body func(h *hx.T, run func(op string) string)) {
+	quiet()
 	h := hx.Open()
 	synctest.Test(t, func(t *testing.T) {
 		emit := func(op string) string {
